@@ -9,6 +9,8 @@ import (
 
 	"cosmossdk.io/math"
 	sdk "github.com/cosmos/cosmos-sdk/types"
+	"github.com/cosmos/cosmos-sdk/types/query"
+	minttypes "github.com/cosmos/cosmos-sdk/x/mint/types"
 
 	fundraising "github.com/tendermint/fundraising/x/fundraising/module"
 	"github.com/tendermint/fundraising/x/fundraising/types"
@@ -263,8 +265,20 @@ func (e *Env) Exec(o Op) (pre []string, res Result, post []string) {
 		}
 		e.rebuild()
 		res = Result{"done", ""}
+	case "FUND":
+		// harness-level: mint coins to a user (set-up of corpus histories that need unusual balances)
+		cs := sdk.NewCoins(sdk.NewCoin(pDenom(f["d"]), pInt(f["amt"])))
+		if err := e.app.BankKeeper.MintCoins(e.ctx, minttypes.ModuleName, cs); err != nil {
+			panic(err)
+		}
+		if err := e.app.BankKeeper.SendCoinsFromModuleToAccount(e.ctx, minttypes.ModuleName, e.users[pU64(f["u"])], cs); err != nil {
+			panic(err)
+		}
+		res = Result{"done", ""}
 	case "GENESIS":
 		res, post = e.genesis()
+	case "QUERY":
+		res, post = e.query(f)
 	default:
 		panic("unknown op " + o.Kind)
 	}
@@ -310,3 +324,101 @@ func (e *Env) genesis() (Result, []string) {
 }
 
 var _ = sort.Strings
+
+// query runs one gRPC query handler and renders the answer in the record format of the state dump
+func (e *Env) query(f map[string]string) (Result, []string) {
+	var out []string
+	var err error
+	page := &query.PageRequest{Limit: 100000}
+	opt := func(k string) string {
+		if f[k] == "-" {
+			return ""
+		}
+		return f[k]
+	}
+	e2 := &Env{app: e.app, ctx: e.ctx, k: e.k, users: e.users, userStr: e.userStr, upperStr: e.upperStr, pool: e.pool}
+	switch f["q"] {
+	case "geta":
+		var r *types.QueryGetAuctionResponse
+		r, err = e.qs.GetAuction(e.ctx, &types.QueryGetAuctionRequest{AuctionId: pU64(f["a"])})
+		if err == nil {
+			a, _ := types.UnpackAuction(r.Auction)
+			out = append(out, e2.auctionLine(a.GetId(), a))
+		}
+	case "lista":
+		st, ty := "", ""
+		if f["st"] != "-" {
+			st = types.AuctionStatus(pU64(f["st"])).String()
+		}
+		if f["ty"] != "-" {
+			ty = types.AuctionType(pU64(f["ty"])).String()
+		}
+		var r *types.QueryAllAuctionResponse
+		r, err = e.qs.ListAuction(e.ctx, &types.QueryAllAuctionRequest{Status: st, Type: ty, Pagination: page})
+		if err == nil {
+			for _, any := range r.Auction {
+				a, _ := types.UnpackAuction(any)
+				out = append(out, e2.auctionLine(a.GetId(), a))
+			}
+		}
+	case "getb":
+		var r *types.QueryGetBidResponse
+		r, err = e.qs.GetBid(e.ctx, &types.QueryGetBidRequest{AuctionId: pU64(f["a"]), BidId: pU64(f["b"])})
+		if err == nil {
+			out = append(out, e2.bidLine(r.Bid.AuctionId, r.Bid.Id, r.Bid))
+		}
+	case "listb":
+		bidder := ""
+		if f["u"] != "-" {
+			bidder = e.whoStr(f["u"])
+		}
+		m := opt("m")
+		if m == "1" {
+			m = "true"
+		} else if m == "0" {
+			m = "false"
+		}
+		var r *types.QueryAllBidResponse
+		r, err = e.qs.ListBid(e.ctx, &types.QueryAllBidRequest{AuctionId: pU64(f["a"]), Bidder: bidder, IsMatched: m, Pagination: page})
+		if err == nil {
+			for _, b := range r.Bid {
+				out = append(out, e2.bidLine(b.AuctionId, b.Id, b))
+			}
+		}
+	case "getl":
+		var r *types.QueryGetAllowedBidderResponse
+		r, err = e.qs.GetAllowedBidder(e.ctx, &types.QueryGetAllowedBidderRequest{AuctionId: pU64(f["a"]), Bidder: e.userStr[pU64(f["u"])]})
+		if err == nil {
+			out = append(out, e2.allowedLine(r.AllowedBidder))
+		}
+	case "listl":
+		var r *types.QueryAllAllowedBidderResponse
+		r, err = e.qs.ListAllowedBidder(e.ctx, &types.QueryAllAllowedBidderRequest{AuctionId: pU64(f["a"]), Pagination: page})
+		if err == nil {
+			for _, ab := range r.AllowedBidder {
+				out = append(out, e2.allowedLine(ab))
+			}
+		}
+	case "listv":
+		var r *types.QueryAllVestingQueueResponse
+		r, err = e.qs.ListVestingQueue(e.ctx, &types.QueryAllVestingQueueRequest{AuctionId: pU64(f["a"]), Pagination: page})
+		if err == nil {
+			for _, v := range r.VestingQueue {
+				out = append(out, e2.vqLine(v))
+			}
+		}
+	case "params":
+		var r *types.QueryParamsResponse
+		r, err = e.qs.Params(e.ctx, &types.QueryParamsRequest{})
+		if err == nil {
+			out = append(out, fmt.Sprintf("ST P %s %s %d", encCoins(r.Params.AuctionCreationFee), encCoins(r.Params.PlaceBidFee), r.Params.ExtendedPeriod))
+		}
+	}
+	if err != nil {
+		return Result{"qerr", oneLine(err.Error())}, nil
+	}
+	for i := range out {
+		out[i] = "QR " + strings.TrimPrefix(out[i], "ST ")
+	}
+	return Result{"qok", ""}, out
+}
